@@ -398,25 +398,30 @@ def decodeSymbol (eopmValid : Bool) : M Pending := do
     else
       -- repeated match: there must be something in the dictionary
       if full == 0 then throw .dataError            -- dict_is_distance_valid(&dict, 0)
-      let isRep0 ← rcBit (P_IS_REP0 + state)
-      if isRep0 == 0 then
-        let isLong ← rcBit (P_IS_REP0_LONG + state * POS_STATES_MAX + posState)
-        if isLong == 0 then
-          modify fun s => { s with state := updateShortRep state }
-          return .shortRep
       else
-        let isRep1 ← rcBit (P_IS_REP1 + state)
-        if isRep1 == 0 then
-          modify fun s => { s with rep1 := s.rep0, rep0 := s.rep1 }
-        else
-          let isRep2 ← rcBit (P_IS_REP2 + state)
-          if isRep2 == 0 then
-            modify fun s => { s with rep2 := s.rep1, rep1 := s.rep0, rep0 := s.rep2 }
+        let isRep0 ← rcBit (P_IS_REP0 + state)
+        let isShort ← (do
+          if isRep0 == 0 then
+            let isLong ← rcBit (P_IS_REP0_LONG + state * POS_STATES_MAX + posState)
+            pure (isLong == 0)
           else
-            modify fun s => { s with rep3 := s.rep2, rep2 := s.rep1, rep1 := s.rep0, rep0 := s.rep3 }
-      modify fun s => { s with state := updateLongRep state }
-      let len ← lenDecode P_REP_LEN posState
-      pure (.copy len)
+            let isRep1 ← rcBit (P_IS_REP1 + state)
+            if isRep1 == 0 then
+              modify fun s => { s with rep1 := s.rep0, rep0 := s.rep1 }
+            else
+              let isRep2 ← rcBit (P_IS_REP2 + state)
+              if isRep2 == 0 then
+                modify fun s => { s with rep2 := s.rep1, rep1 := s.rep0, rep0 := s.rep2 }
+              else
+                modify fun s => { s with rep3 := s.rep2, rep2 := s.rep1, rep1 := s.rep0, rep0 := s.rep3 }
+            pure false : M Bool)
+        if isShort then
+          modify fun s => { s with state := updateShortRep state }
+          pure .shortRep
+        else
+          modify fun s => { s with state := updateLongRep state }
+          let len ← lenDecode P_REP_LEN posState
+          pure (.copy len)
 
 /-- The output step (SEQ_LITERAL_WRITE / SEQ_SHORTREP / SEQ_COPY): `dict_put_safe`, `dict_repeat`. -/
 def doWrite (p : Pending) : M Unit := fun s =>
@@ -431,22 +436,32 @@ def doWrite (p : Pending) : M Unit := fun s =>
     if len - left != 0 then .error (.outFull (.copy (len - left))) s else .ok () s
   | _ => .ok () s
 
-/-- The main loop of `lzma_decode` (one iteration = the `might_finish_without_eopm` test, one symbol, its output). -/
+/-- Top of the resumable loop (SEQ_NORMALIZE / SEQ_IS_MATCH): when the known uncompressed size has been reached
+    (`might_finish_without_eopm && dict.pos == dict.limit`) the stream may end here. Returns the new `eopm_is_valid`. -/
+def symPrelude (eopmValid mightFinish : Bool) : M Bool := do
+  let atLimit ← (fun s : St => EStateM.Result.ok (s.dp.pos == s.dp.limit) s)
+  if mightFinish && atLimit then
+    rcNormalize                                 -- SEQ_NORMALIZE
+    let (fin, allow) ← (fun s : St => EStateM.Result.ok (s.code == 0, s.allowEopm) s)
+    if fin then throw .streamEnd                -- rc_is_finished
+    else if !allow then throw .dataError
+    else
+      modify fun s => { s with eopmValid := true }
+      pure true
+  else pure eopmValid
+
+/-- One iteration of the main loop of `lzma_decode`: the `might_finish_without_eopm` test, one symbol, its output. -/
+def symStep (eopmValid mightFinish : Bool) : M Bool := do
+  let eopmValid ← symPrelude eopmValid mightFinish
+  let act ← decodeSymbol eopmValid
+  doWrite act
+  pure eopmValid
+
+/-- The main loop of `lzma_decode`; it is only left through an exit. -/
 def symLoop : Nat → Bool → Bool → M Unit
   | 0, _, _ => throw .fuel
   | fuel + 1, eopmValid, mightFinish => do
-    let atLimit ← (fun s : St => EStateM.Result.ok (s.dp.pos == s.dp.limit) s)
-    let eopmValid ← (do
-      if mightFinish && atLimit then
-        rcNormalize                                 -- SEQ_NORMALIZE
-        let (fin, allow) ← (fun s : St => EStateM.Result.ok (s.code == 0, s.allowEopm) s)
-        if fin then throw .streamEnd                -- rc_is_finished
-        if !allow then throw .dataError
-        modify fun s => { s with eopmValid := true }
-        pure true
-      else pure eopmValid : M Bool)
-    let act ← decodeSymbol eopmValid
-    doWrite act
+    let eopmValid ← symStep eopmValid mightFinish
     symLoop fuel eopmValid mightFinish
 
 /-- `rc_read_init` with `n = init_bytes_left`: `.ok true` = all init bytes read (LZMA_STREAM_END), `.ok false` = input ran
